@@ -427,6 +427,27 @@ func (w *World) finalPhase() bool {
 			w.finalStage++
 			w.oracleC17Liveness()
 		}
+	case "C18":
+		// the follow-up: with the good configuration back, an ordinary request on the instance must still be answered
+		switch w.finalStage {
+		case 0:
+			w.finalStage++
+			if w.badConfig {
+				w.restoreConfig()
+				w.killDaemon(false)
+				return true
+			}
+			fallthrough
+		case 1:
+			w.finalStage = 2
+			p := w.cfg.Pods[0]
+			w.made[p.Idx] = 50
+			w.spawnRequest(w.newContainer(p), "ADD")
+			return true
+		case 2:
+			w.finalStage++
+			w.S.Stat("probe.follow-up-answered")
+		}
 	case "C14":
 		// tear down what is still up, one pod at a time, then compare with the table before
 		for _, p := range w.cfg.Pods {
